@@ -54,6 +54,7 @@ import (
 	"time"
 
 	"github.com/algorand/go-algorand/agreement"
+	"github.com/algorand/go-algorand/config"
 	"github.com/algorand/go-algorand/data/basics"
 	"github.com/algorand/go-algorand/data/bookkeeping"
 	"github.com/algorand/go-algorand/data/committee"
@@ -100,7 +101,7 @@ func c09InTrackerTx(point string) bool {
 // ---- journal ----------------------------------------------------------------------------------
 
 type c09Line struct {
-	K     string            `json:"k"` // open | add | durable | flushed | cp | label | hits | done
+	K     string            `json:"k"` // open | add | durable | flushed | cp | fs | label | hits | done
 	R     uint64            `json:"r,omitempty"`
 	H     string            `json:"h,omitempty"`   // block hash
 	B     []byte            `json:"b,omitempty"`   // msgpack-encoded block
@@ -230,6 +231,24 @@ func c09Step(s *hlSim, beforeAdd func(blk bookkeeping.Block)) error {
 	return s.addValidated(vb)
 }
 
+// c09ForceCommit forces a tracker commit of everything eligible THROUGH THE PRODUCTION PATH
+// (Ledger.notifyCommit -> trackerRegistry.committedUpTo -> scheduleCommit -> commitSyncer goroutine),
+// only removing the "flushed less than 5s ago" hold-off. hlSim.flush() calls commitRound on the
+// caller's goroutine, which with catchpoints enabled can run concurrently with a background commit
+// the block-queue syncer has just scheduled - an interleaving production never has.
+func c09ForceCommit(s *hlSim) basics.Round {
+	l := s.l
+	s.waitBlockQueue()
+	l.trackers.waitAccountsWriting()
+	l.trackers.mu.Lock()
+	l.trackers.lastFlushTime = time.Time{}
+	l.trackers.mu.Unlock()
+	l.notifyCommit(l.Latest())
+	l.trackers.waitAccountsWriting()
+	s.tr("forced commit -> dbRound %d (latest %d)", l.LatestTrackerCommitted(), l.Latest())
+	return l.LatestTrackerCommitted()
+}
+
 // ---- child ------------------------------------------------------------------------------------
 
 // c09RecordedCatchpoints lists catchpoint rounds whose file is recorded in the tracker DB and
@@ -281,12 +300,26 @@ func TestVerifC09Child(t *testing.T) {
 	j.write(c, c09Line{K: "open", DB: s.dbName, B: protocol.Encode(&s.genesis.Block)})
 	durable := func(r basics.Round, via string) { j.write(c, c09Line{K: "durable", R: uint64(r), Via: via}) }
 	cpSeen := map[uint64]bool{}
+	fsSeen := map[basics.Round]bool{}
 	lastLabel := ""
 	catchpoints := func() {
 		for _, r := range c09RecordedCatchpoints(s.l, s.l.LatestTrackerCommitted()) {
 			if !cpSeen[r] {
 				cpSeen[r] = true
 				j.write(c, c09Line{K: "cp", R: r})
+			}
+		}
+		// completed first-stage records (needed later by the second stage of the same catchpoint)
+		if st := s.l.catchpoint.catchpointStore; st != nil {
+			lookback := basics.Round(config.Consensus[s.cfg.Proto].CatchpointLookback)
+			for x := basics.Round(1); x <= s.l.LatestTrackerCommitted(); x++ {
+				if (x+lookback)%c09CpInterval != 0 || fsSeen[x] {
+					continue
+				}
+				if _, ok, err := st.SelectCatchpointFirstStageInfo(context.Background(), x); err == nil && ok {
+					fsSeen[x] = true
+					j.write(c, c09Line{K: "fs", R: uint64(x)})
+				}
 			}
 		}
 		if lb := s.l.GetLastCatchpointLabel(); lb != "" && lb != lastLabel {
@@ -316,7 +349,7 @@ func TestVerifC09Child(t *testing.T) {
 			<-s.l.Wait(r)
 			durable(r, "Wait")
 		case 3:
-			db := s.flush() // waits for the block queue, then forces a tracker commit
+			db := c09ForceCommit(s) // waits for the block queue, then forces a tracker commit
 			durable(latest, "flush")
 			j.write(c, c09Line{K: "flushed", R: uint64(db)})
 			catchpoints()
@@ -526,7 +559,9 @@ var c09FP = kit.FPOptions{NilEqualsEmpty: true, Skip: map[string]bool{"initialHi
 // c09DeltaFP: structural fingerprint of a StateDelta with its keyed record slices in canonical order
 // (emission order is not observable through the ledger).
 func c09DeltaFP(d ledgercore.StateDelta) string {
-	d.Dehydrate()
+	// NOT d.Dehydrate(): it clears the lookup-cache maps in place, and those maps are shared with the
+	// delta the ledger's trackers hold (lookups at that round would silently miss). The caches are
+	// skipped by name instead (c09FP) and nil == empty.
 	ad := d.Accts
 	ad.Accts = append([]ledgercore.BalanceRecord(nil), ad.Accts...)
 	sort.Slice(ad.Accts, func(i, j int) bool { return bytes.Compare(ad.Accts[i].Addr[:], ad.Accts[j].Addr[:]) < 0 })
@@ -866,7 +901,7 @@ func c09Judge1(t testing.TB, c *kit.Ctx, cs c09Case, run c09Run) (hits map[strin
 	added := map[basics.Round]c09Line{}
 	var maxAdded, maxDurable, maxFlushed basics.Round
 	durableVia := ""
-	var cps []uint64
+	var cps, fss []uint64
 	completed := false
 	for _, ln := range lines {
 		switch ln.K {
@@ -886,6 +921,8 @@ func c09Judge1(t testing.TB, c *kit.Ctx, cs c09Case, run c09Run) (hits map[strin
 			maxFlushed = max(maxFlushed, basics.Round(ln.R))
 		case "cp":
 			cps = append(cps, ln.R)
+		case "fs":
+			fss = append(fss, ln.R)
 		case "label":
 			label = ln.Label
 		case "hits":
@@ -934,15 +971,15 @@ func c09Judge1(t testing.TB, c *kit.Ctx, cs c09Case, run c09Run) (hits map[strin
 	jd.base = map[string]any{"case": cs.String(), "child_ended": run.how, "journal_lines": jlines, "max_round_handed_over": maxAdded,
 		"max_round_acknowledged_durable": maxDurable, "acknowledged_via": durableVia, "last_forced_commit_round": maxFlushed,
 		"disk_block_latest": diskLatest, "disk_block_earliest": diskEarliest, "disk_tracker_round": diskTracker,
-		"replay": fmt.Sprintf("VERIF_SEED=%d bin/verif check C09 (crashed files are copied next to the replay file as <replay>.files)", c.Seed)}
+		"replay": fmt.Sprintf("VERIF_SEED=%d bin/verif check C09; the files as the crash left them and the journal: %s/C09-crash-seed%d-case%d.files.tar", c.Seed, c09ReplayDir(), c.Seed, cs.idx)}
 	defer func() {
 		if jd.viol > 0 {
-			dst := filepath.Join(c09ReplayDir(), fmt.Sprintf("C09-crash-seed%d-case%d.files", c.Seed, cs.idx))
-			os.RemoveAll(dst)
-			if c09CopyDir(snap, dst) == nil {
-				b, _ := os.ReadFile(filepath.Join(run.dir, "journal"))
-				os.WriteFile(filepath.Join(dst, "journal"), b, 0o644)
+			// a single file: the driver cleans the replay directory with os.remove
+			dst := filepath.Join(c09ReplayDir(), fmt.Sprintf("C09-crash-seed%d-case%d.files.tar", c.Seed, cs.idx))
+			if b, err := os.ReadFile(filepath.Join(run.dir, "journal")); err == nil {
+				os.WriteFile(filepath.Join(snap, "journal"), b, 0o644)
 			}
+			c09TarDir(snap, dst)
 		}
 		os.RemoveAll(run.dir)
 	}()
@@ -1087,6 +1124,21 @@ func c09Judge1(t testing.TB, c *kit.Ctx, cs c09Case, run c09Run) (hits map[strin
 		}
 		rc.Close()
 	}
+	// a completed first-stage record may only disappear by pruning, which removes rounds
+	// <= trackerDBround - CatchpointLookback; younger ones are still needed by their second stage
+	l.trackers.waitAccountsWriting()
+	cpLookback := config.Consensus[cfg.Proto].CatchpointLookback
+	for _, x := range fss {
+		if x+cpLookback <= uint64(l.LatestTrackerCommitted()) {
+			continue
+		}
+		c.Eval(1)
+		c.Count("catchpoint_first_stage_records_checked", 1)
+		_, ok, err := l.catchpoint.catchpointStore.SelectCatchpointFirstStageInfo(context.Background(), basics.Round(x))
+		if err != nil || !ok {
+			jd.violation("catchpoint-lost-after-crash", map[string]any{"what": "a completed first-stage catchpoint record that its second stage still needs is gone", "first_stage_round": x, "catchpoint_lookback": cpLookback, "tracker_round_now": l.LatestTrackerCommitted(), "error": fmt.Sprint(err)})
+		}
+	}
 	if label != "" {
 		now := l.GetLastCatchpointLabel()
 		was, _ := c09LabelRound(label)
@@ -1134,9 +1186,34 @@ func c09Judge1(t testing.TB, c *kit.Ctx, cs c09Case, run c09Run) (hits map[strin
 	if jd.viol > 0 {
 		return hits, jlines, nil
 	}
-	cont.flush()
+	c09ForceCommit(cont)
 	jd.compare(l, ref.m, ref.u, vr, blocks, "after-continuation-and-commit")
 	return hits, jlines, nil
+}
+
+func c09TarDir(src, dst string) error {
+	f, err := os.Create(dst)
+	if err != nil {
+		return err
+	}
+	defer f.Close()
+	tw := tar.NewWriter(f)
+	defer tw.Close()
+	return filepath.Walk(src, func(p string, fi os.FileInfo, err error) error {
+		if err != nil || fi.IsDir() {
+			return err
+		}
+		rel, _ := filepath.Rel(src, p)
+		b, err := os.ReadFile(p)
+		if err != nil {
+			return err
+		}
+		if err := tw.WriteHeader(&tar.Header{Name: rel, Mode: 0o644, Size: int64(len(b))}); err != nil {
+			return err
+		}
+		_, err = tw.Write(b)
+		return err
+	})
 }
 
 func c09ReadCatchpoint(rc io.Reader) error {
@@ -1301,4 +1378,5 @@ func TestVerifC09(t *testing.T) {
 	c.Require("lookups.kv_present", 20)
 	c.Require("lookups.agreement.history", 50)
 	c.Require("catchpoint_files_checked", int64(c.N(3, 50)))
+	c.Require("catchpoint_first_stage_records_checked", int64(c.N(3, 50)))
 }
